@@ -1,40 +1,188 @@
 /-
   Proofs.C05 — lemmas and proofs behind Props/C05.lean.
+
+  The unrestricted statements of `step_inv`, `reachable_inv`, `id_immutable` are false
+  (`Proofs/C05Cex.lean`): the value universe contains association lists with duplicate keys, on
+  which Python `==` as modelled is neither reflexive nor symmetric.  They are proved here on
+  `GoodColl` collections (Spec/StoreInv.lean) as `step_inv_alt` / `step_inv_fine`,
+  `reachable_inv_alt` / `reachable_inv_check`, `id_immutable_alt`.
 -/
 import Spec.StoreInv
+import Proofs.C05Step
+import Proofs.C05Fresh
+import Proofs.C05Cex
+import Proofs.C05Wf
+
+set_option linter.unusedSimpArgs false
+set_option linter.unusedVariables false
 
 namespace MongoModel.Proofs.C05
-open MongoModel MongoModel.Spec
+open MongoModel MongoModel.Spec MongoModel.Proofs.C05Lemmas
 
-theorem init_inv : IdInv ({} : Coll) := by sorry
-
-theorem step_inv (cfg : Cfg) (s : St) (op : Val) (h : IdInv s.c) : IdInv (step cfg s op).1.c := by
-  sorry
-
-theorem reachable_inv (cfg : Cfg) (ops : List Val) : IdInv (run cfg ops).2.c := by sorry
+theorem init_inv : IdInv ({} : Coll) := by
+  refine ⟨?_, ?_⟩
+  · exact List.Pairwise.nil
+  · intro p hp; cases hp
 
 theorem ids_distinct (c : Coll) (h : IdInv c) (hs : ∀ p ∈ c.docs, SymmVal p.1) :
     c.docs.Pairwise (fun a b => ∀ ia ib, idOf a.2 = some ia → idOf b.2 = some ib →
-      pyEq ia ib = false) := by sorry
+      pyEq ia ib = false) := by
+  obtain ⟨hd, hk⟩ := h
+  unfold KeysDistinct at hd
+  have hmem : c.docs.Pairwise (fun a b => a ∈ c.docs ∧ b ∈ c.docs ∧ pyEq a.1 b.1 = false) := by
+    rw [List.pairwise_iff_forall_sublist]
+    intro a b hab
+    refine ⟨hab.subset (by simp), hab.subset (by simp), ?_⟩
+    exact (List.pairwise_iff_forall_sublist.mp hd) hab
+  refine List.Pairwise.imp ?_ hmem
+  intro a b ⟨ha, hb, hab⟩ ia ib hia hib
+  obtain ⟨ia', hia', hka⟩ := hk a ha
+  obtain ⟨ib', hib', hkb⟩ := hk b hb
+  rw [hia] at hia'; cases hia'
+  rw [hib] at hib'; cases hib'
+  cases hx : pyEq ia ib with
+  | false => rfl
+  | true =>
+    have h1 : pyEq a.1 ib = true := pyEq_trans _ _ _ hka hx
+    have h2 : pyEq ib b.1 = true := by rw [← hs b hb ib]; exact hkb
+    rw [pyEq_trans _ _ _ h1 h2] at hab
+    cases hab
 
-theorem scalar_symm (v : Val) (h : isScalar v = true) : SymmVal v := by sorry
+theorem scalar_symm (v : Val) (h : isScalar v = true) : SymmVal v := scalar_symm' v h
 
 theorem dup_rejected (cfg : Cfg) (now : Int) (c c1 : Coll) (fs : Fields) (id : Val)
     (hid : dget "_id" (patchFields fs) = some id) (hk : storeKey id = .ok id)
     (he : expire now c = .ok c1) (hd : c1.hasKey id = true) :
-    stepColl cfg now c (.arr [.str "insert_one", .doc fs]) = (c1, .err .dupKey) := by sorry
+    stepColl cfg now c (.arr [.str "insert_one", .doc fs]) = (c1, .err .dupKey) := by
+  have hhas : dhas "_id" fs = true := by
+    rw [dget_patchFields] at hid
+    cases hg : dget "_id" fs with
+    | none => simp [hg] at hid
+    | some w => simp [dhas, hg]
+  have hins : insertDoc now c (.doc fs) = .error .dupKey := by
+    rw [insertDoc_eq, if_pos hhas]
+    unfold insertCore
+    simp only [patchDT, patch, hid, Option.getD_some, bind, Except.bind, hk, he, hd, if_true]
+  simp only [stepColl, hins, hhas, if_true, he]
 
 theorem insert_fresh (now : Int) (c c' : Coll) (d id : Val) (hn : c.ttlIndexes = [])
     (h : insertDoc now c d = .ok (c', id)) :
     c.hasKey id = false ∧ c'.docs = c.docs ++ [(id, patchDT
       (match d with
        | .doc fs => .doc (if dhas "_id" fs then fs else dset "_id" id fs)
-       | v => v))] := by sorry
+       | v => v))] := by
+  cases d with
+  | doc fs =>
+    rw [insertDoc_eq] at h
+    by_cases hh : dhas "_id" fs = true
+    · rw [if_pos hh] at h
+      obtain ⟨_, h2, h3⟩ := insertCore_fresh now c fs c' id hn hh h
+      exact ⟨h2, by simpa [hh] using h3⟩
+    · rw [if_neg hh] at h
+      have hh' : dhas "_id" (dset "_id" (.oid c.nextOid) fs) = true := by
+        simp [dhas, dget_dset_self]
+      obtain ⟨h1, h2, h3⟩ := insertCore_fresh now { c with nextOid := c.nextOid + 1 } _ c' id hn hh' h
+      rw [dget_patchFields, dget_dset_self] at h1
+      simp [patchDT, patch] at h1
+      subst h1
+      exact ⟨h2, by simpa [hh] using h3⟩
+  | _ => simp [insertDoc] at h
 
-theorem id_immutable (cfg : Cfg) (now : Int) (c c' : Coll) (f u : Val) (upsert multi : Bool)
-    (r : R UpdateResult) (h : applyUpdateColl cfg now c f u upsert multi = (c', r)) :
+/-! ### the invariant on `GoodColl` collections
+
+The unrestricted statements fail only on values a Python `dict` cannot be: association lists
+with duplicate keys, on which `==` is neither reflexive nor symmetric.  The statements below
+assume of the stored entries what `ids_distinct` already assumes (`SymmVal` keys), plus
+reflexivity of the keys and documents with pairwise distinct top-level keys (`GoodColl`). -/
+
+theorem updOK_of_good {c : Coll} (h : GoodColl c) : UpdOK c :=
+  fun p hp => ⟨(h p hp).1, (h p hp).2.2⟩
+
+theorem scalar_refl (v : Val) (h : isScalar v = true) : pyEq v v = true :=
+  C05Lemmas.scalar_refl v h
+
+/-- finer form of `step_inv_alt`: what is used of the state before (symmetric keys, dict-shaped
+    documents) and of the state after (reflexive keys) -/
+theorem step_inv_fine (cfg : Cfg) (s : St) (op : Val) (h : IdInv s.c)
+    (hs : ∀ p ∈ s.c.docs, SymmVal p.1 ∧ ∃ fs, p.2 = .doc fs ∧ (dkeys fs).Nodup)
+    (hr : ∀ p ∈ (step cfg s op).1.c.docs, pyEq p.1 p.1 = true) :
+    IdInv (step cfg s op).1.c :=
+  WInv.toId (step_winv cfg s op h hs) hr
+
+theorem step_inv_alt (cfg : Cfg) (s : St) (op : Val) (h : IdInv s.c)
+    (hg : GoodColl s.c) (hg' : GoodColl (step cfg s op).1.c) : IdInv (step cfg s op).1.c :=
+  step_inv_fine cfg s op h (updOK_of_good hg) (fun p hp => (hg' p hp).2.1)
+
+theorem runSt_inv (cfg : Cfg) : ∀ (ops : List Val) (s : St), IdInv s.c →
+    (∀ n, GoodColl (runSt cfg (ops.take n) s).c) → IdInv (runSt cfg ops s).c := by
+  intro ops
+  induction ops with
+  | nil => intro s hi _; exact hi
+  | cons op ops ih =>
+    intro s hi hg
+    have h0 : GoodColl s.c := hg 0
+    have h1 : GoodColl (observe (step cfg s op).1).1.c := by
+      have := hg 1
+      simpa [runSt] using this
+    have hw : WInv (observe (step cfg s op).1).1.c :=
+      WInv.sub (observe_sub _) (step_winv cfg s op hi (updOK_of_good h0))
+    have hi1 : IdInv (observe (step cfg s op).1).1.c := WInv.toId hw (fun p hp => (h1 p hp).2.1)
+    have := ih (observe (step cfg s op).1).1 hi1 (fun n => by
+      have := hg (n + 1)
+      simpa [runSt] using this)
+    simpa [runSt] using this
+
+/-- every reachable state satisfies the invariant, provided the states along the history hold
+    well-behaved entries only -/
+theorem reachable_inv_alt (cfg : Cfg) (ops : List Val)
+    (hg : ∀ n, GoodColl (run cfg (ops.take n)).2.c) : IdInv (run cfg ops).2.c := by
+  rw [run_snd]
+  refine runSt_inv cfg ops {} init_inv (fun n => ?_)
+  rw [← run_snd]; exact hg n
+
+theorem id_immutable_alt (cfg : Cfg) (now : Int) (c c' : Coll) (f u : Val) (upsert multi : Bool)
+    (r : R UpdateResult) (h : applyUpdateColl cfg now c f u upsert multi = (c', r))
+    (hi : IdInv c)
+    (hs : ∀ p ∈ c.docs, SymmVal p.1 ∧ ∃ fs, p.2 = .doc fs ∧ (dkeys fs).Nodup) :
     ∀ p' ∈ c'.docs,
       (∃ p ∈ c.docs, p.1 = p'.1 ∧ pyEqOpt (idOf p.2) (idOf p'.2) = true) ∨
-      (∃ res id, r = .ok res ∧ res.upserted = some id ∧ p'.1 = id) := by sorry
+      (∃ res id, r = .ok res ∧ res.upserted = some id ∧ p'.1 = id) := by
+  obtain ⟨c3, h1, _, h3⟩ := applyUpdateColl_spec cfg now c f u upsert multi c' r h (entU_init hi hs)
+  intro p' hp'
+  rcases h3 with h3 | ⟨c4, built, c5, id, h4, h5, h6, res, hres, hup⟩
+  · rw [h3] at hp'
+    exact Or.inl (h1 p' hp').2.2.2
+  · obtain ⟨c1, d, hs1, _, _, _, hsub⟩ := insertDoc_spec now c4 built c5 id h5
+    rw [h6] at hp'
+    have := hsub.subset hp'
+    simp only [List.mem_append, List.mem_singleton] at this
+    rcases this with hm | rfl
+    · have hm3 : p' ∈ c3.docs := by rw [← h4]; exact hs1.subset hm
+      exact Or.inl (h1 p' hm3).2.2.2
+    · exact Or.inr ⟨res, id, hres, hup, rfl⟩
+
+/-! ### a decidable sufficient condition (scalar `_id`s), and a non-vacuity check -/
+
+theorem goodEntry_of_goodB (p : Val × Val) (h : goodB p = true) : GoodEntry p := by
+  simp only [goodB, Bool.and_eq_true] at h
+  refine ⟨scalar_symm p.1 h.1, scalar_refl p.1 h.1, ?_⟩
+  have h2 := h.2
+  split at h2
+  · rename_i fs hfs; exact ⟨fs, hfs, by simpa using h2⟩
+  · cases h2
+
+/-- for a concrete history the hypothesis of `reachable_inv_alt` can be checked by evaluation -/
+theorem reachable_inv_check (cfg : Cfg) (ops : List Val)
+    (h : (List.range (ops.length + 1)).all
+      (fun n => (run cfg (ops.take n)).2.c.docs.all goodB) = true) :
+    IdInv (run cfg ops).2.c := by
+  refine reachable_inv_alt cfg ops (fun n p hp => ?_)
+  simp only [List.all_eq_true, List.mem_range] at h
+  by_cases hn : n < ops.length + 1
+  · exact goodEntry_of_goodB p (h n hn p hp)
+  · rw [List.take_of_length_le (by omega)] at hp
+    have := h ops.length (by omega)
+    rw [List.take_length] at this
+    exact goodEntry_of_goodB p (this p hp)
 
 end MongoModel.Proofs.C05
